@@ -206,7 +206,9 @@ def run(chk):
     if tr.returncode != 0:
         chk.proof_broken.append({'theorem': 'translator (harness/translate_driver.py) refused the source of the time loop',
                                  'log': (tr.stdout + tr.stderr)[-800:]})
-    chk.proof_side(build=not getattr(chk, 'no_build', False), extra_props=('C04Driver',))
+    # Props/C04Gen.lean is about the state machine REGENERATED from grid.py
+    common.run_translator(chk, 'translate_pure.py', '--only', 'grid')
+    chk.proof_side(build=not getattr(chk, 'no_build', False), extra_props=('C04Driver', 'C04Gen'))
     drv = common.LeanDriver('C04.lean')
     try:
         if chk.replay:
